@@ -244,8 +244,11 @@ def words_for(s, rng, n):
         data = [(w >> (8 * j)) & 0xFF for j in range(blen)]
         if endian == -1:
             data.reverse()
-        ntail = rng.choice((0, 0, 1, 2, 3)) if not var else rng.choice((0, 1, 2, 4, 6))
-        data += [rng.randrange(256) for _ in range(ntail)]
+        # variable-length specs take every remaining byte: also inputs of 17 / 24 / 40 bytes in all
+        ntail = rng.choice((0, 0, 1, 2, 3)) if not var else rng.choice((0, 1, 2, 4, 6, 17 - blen, 24 - blen, 40 - blen))
+        data += [rng.randrange(256) for _ in range(max(0, ntail))]
+        if var and ntail > 6:
+            data[-1] = data[-1] | 0x81      # a shortened tail must change the value in every form
         if rng.random() < 0.05 and blen > 0:
             data = data[:blen - 1]
         out.append((data, endian))
